@@ -17,6 +17,11 @@ THEOREMS = [
              "(inbound criteria status = satisfied) computed on the state with this arrival merged"},
     {"name": "C07b_ready_kept_outside_events / _by_prefix / _by_decision", "strength": "F",
      "text": "nothing else rewrites the flag of an existing entry, and every entry created elsewhere is ready"},
+    {"name": "C07c_ready_flag_on_a_new_route / C07c_one_followed_transition_is_enough / C07c_loop_hypotheses (props/C07c.v)",
+     "strength": "F",
+     "text": "the barrier status is read on the SOURCE's route although the entry may be staged on a new route: proved "
+             "harmless -- the two routes differ only for split tasks outside cycles, whose requirement is 1 and is met by the "
+             "source's own record, so the entry is ready (and reading the new route would be wrong: Example)"},
     {"name": "(tested) once per satisfaction -- refuted for join: n below the inbound count by known finding D1",
      "strength": "T", "text": "monitor c07"},
 ]
